@@ -1,17 +1,21 @@
 #!/bin/bash
 # seed_matrix.sh [seed ids...] : for every seeded change, apply it to a scratch copy of /repo and run every claimed check there
-# (own work dir, own evidence dir - /repo and /verif/evidence are not touched). Prints one line per (seed, check) that fires.
-MX=/tmp/seedmx; mkdir -p $MX
-rm -rf $MX/repo; rsync -a --exclude target --exclude .git /repo/ $MX/repo/
+# (own work dir, own evidence dir - /repo and <verif>/evidence are not touched). Prints one line per seed: the checks that fire.
+V=$(cd "$(dirname "$0")/.." && pwd)
+MX=${SEEDMX_DIR:-/tmp/seedmx}; mkdir -p $MX
+SRC=${VP_RUN_REPO:-/repo}
+rm -rf $MX/repo; rsync -a --exclude target --exclude .git $SRC/ $MX/repo/
+[ -f $MX/repo/Cargo.lock ] || cp /repo/Cargo.lock $MX/repo/
 cd $MX/repo && git init -q . 2>/dev/null && git add -A >/dev/null 2>&1 && git -c user.email=a@b -c user.name=x commit -qm base >/dev/null 2>&1
 export ASCENT_REPO=$MX/repo VERIF_WORK=$MX/work VERIF_EVIDENCE_DIR=$MX/evidence
-SEEDS=${@:-$(ls /verif/seeded)}
-PROPS=$(python3 -c "import json;print(' '.join(c['property_id'] for c in json.load(open('/verif/MANIFEST.json'))['checks']))")
+SEEDS=${@:-$(ls $V/seeded)}
+PROPS=$(python3 -c "import json;print(' '.join(c['property_id'] for c in json.load(open('$V/MANIFEST.json'))['checks']))")
+echo "unchanged:$(for p in $PROPS; do out=$(cd $V && ./check $p 2>/dev/null); echo "$out" | grep -q "^VIOLATION\|CHECK-BROKEN" && echo -n " $p(ALARM)"; done) [must be empty]"
 for s in $SEEDS; do
-  cd $MX/repo && git checkout -q -- . && git apply /verif/seeded/$s/patch.diff 2>/dev/null || { echo "$s: PATCH-DOES-NOT-APPLY"; continue; }
+  cd $MX/repo && git checkout -q -- . && git apply $V/seeded/$s/patch.diff 2>/dev/null || { echo "$s: PATCH-DOES-NOT-APPLY"; continue; }
   fired=""
   for p in $PROPS; do
-    out=$(cd /verif && ./check $p 2>/dev/null)
+    out=$(cd $V && ./check $p 2>/dev/null)
     if echo "$out" | grep -q "^VIOLATION"; then
       rules=$(echo "$out" | grep -E "^\s+\S+ \[" | awk '{print $1}' | sort -u | tr '\n' ',' )
       fired="$fired $p(${rules%,})"
@@ -20,3 +24,4 @@ for s in $SEEDS; do
   echo "$s:$fired"
 done
 cd $MX/repo && git checkout -q -- .
+rm -rf $MX/work/target-*
